@@ -108,6 +108,8 @@ def check_c02(rep):
     sd = [(f"stall-{p}-{s}", p, *G.stalled_drain(s, p)) for i, s in enumerate(seeds(300 if q else 4000, 22))
           for p in (("at4",) if i % 2 == 0 else ("at5",))]
     run_generated(rep, "held messages drained into a connection that stalls while lifetimes run out", sd)
+    from . import p_client_checks as A
+    A.check_c02_api(rep, 300 if q else 6000)
 
 
 def check_c07(rep):
